@@ -17,6 +17,49 @@ type C03Case struct {
 	Data    Dataset  `json:"data"`
 	Open    OpenCfg  `json:"open"`
 	Queries []*Query `json:"queries"`
+	// Morph: the caller keeps ONE updog.Query value and edits its exported fields in place to
+	// turn it into the next query of the history (nodes of matching type are re-used)
+	Morph bool `json:"morph,omitempty"`
+}
+
+// morphExpr edits an existing library expression tree in place so that it means e, re-using
+// every node whose type matches (exported fields only — what any caller may do).
+func morphExpr(old updog.Expression, e *Expr) updog.Expression {
+	switch e.Op {
+	case "eq":
+		if o, ok := old.(*updog.ExprEqual); ok && o != nil {
+			o.Column, o.Value = string(e.Col), string(e.Val)
+			return o
+		}
+	case "not":
+		if o, ok := old.(*updog.ExprNot); ok && o != nil {
+			o.Expr = morphExpr(o.Expr, e.Kids[0])
+			return o
+		}
+	case "and":
+		if o, ok := old.(*updog.ExprAnd); ok && o != nil {
+			o.Exprs = morphList(o.Exprs, e.Kids)
+			return o
+		}
+	case "or":
+		if o, ok := old.(*updog.ExprOr); ok && o != nil {
+			o.Exprs = morphList(o.Exprs, e.Kids)
+			return o
+		}
+	}
+	return e.ToUpdog()
+}
+
+func morphList(old []updog.Expression, kids []*Expr) []updog.Expression {
+	out := old[:0:0]
+	for i, k := range kids {
+		var prev updog.Expression
+		if i < len(old) {
+			prev = old[i]
+		}
+		out = append(out, morphExpr(prev, k))
+	}
+	return out
 }
 
 func init() {
@@ -139,6 +182,7 @@ func genC03(c *Ctx) any {
 	}
 	si := infoOf(cs.Data.Spec.Expand())
 	cs.Queries = relatedQueries(r, si, r.Range(5, 60))
+	cs.Morph = r.Chance(1, 4)
 	return cs
 }
 
@@ -181,10 +225,22 @@ func runC03(c *Ctx, body json.RawMessage) *Verdict {
 	defer fidx.Close()
 	schemaBefore := ref.Schema()
 	meanings := map[string]bool{}
+	var kept *updog.Query
 	ask := func(phase string, i int, q *Query) *Verdict {
 		var res *updog.Result
 		var err error
-		if p := guard(func() { res, err = idx.Execute(q.ToUpdog()) }); p != "" {
+		uq := q.ToUpdog()
+		if cs.Morph {
+			if kept == nil {
+				kept = uq
+			} else {
+				kept.Expr = morphExpr(kept.Expr, q.Expr)
+				kept.GroupBy = uq.GroupBy
+			}
+			uq = kept
+			v.Count("probe_query_value_edited_in_place", 1)
+		}
+		if p := guard(func() { res, err = idx.Execute(uq) }); p != "" {
 			return v.Violate("panic", "%s query %d %s panicked: %s", phase, i, q, p)
 		}
 		want := ref.Execute(q)
@@ -284,7 +340,8 @@ func genC07(c *Ctx) any {
 		}
 		return cs
 	}
-	cs.Cap = []uint64{0, 100, 700, 1500, 5000, 40000, 1 << 22}[r.Intn(7)]
+	// capacities incl. the extremes of the parameter's type
+	cs.Cap = []uint64{0, 100, 700, 1500, 5000, 40000, 1 << 22, 1, 1 << 62, 1<<63 - 1, 1 << 63, 1<<63 + 1, 1<<64 - 1}[r.Intn(13)]
 	nk := r.Range(2, 12)
 	sizes := []int{0, 1, 4, 30, 100, 400, 2000, 9000}
 	for i, n := 0, r.Range(20, 200); i < n; i++ {
